@@ -27,7 +27,10 @@ META = {
             "compile (Lean) and compiler.Compile (Go) must both refuse: rejected_not_run at work); the "
             "engine's real compilation cache (command.NewCompiler, sizes 1 / 2 / 1024) is fed sequences of near-identical texts (blanks in strings and in the "
             "multi-word overdraft tokens, comments, CRLF, trailing newline, letter case, one digit) and must hand out, at every position, exactly what a fresh "
-            "compiler.Compile of that text gives (cache-not-transparent).",
+            "compiler.Compile of that text gives (cache-not-transparent); the corpus of that stream (corpus/nscache/weak-keys.jsonl, tools/collide) holds pairs of "
+            "TxToScriptData texts of different posting-list shapes that collide under 11 weak 32-bit keys (CRC-32 x2, FNV x2, Adler-32, two multiplier hashes, 4-byte "
+            "truncations of SHA-256 / MD5 / SHA-1): the injectivity hypothesis of cache_transparent is exercised where a weaker key would break it (a corpus of known-weak "
+            "digests, not a proof about every key).",
     "note": "compile_correct has three side conditions (Script.wellFormed), none a restriction of the language: at least one statement (the grammar requires "
             "it), in-order source lists and allotments shorter than 2^64 (their length is an operand read through big.Int.Uint64), no portion literal with a "
             "zero denominator (big.Rat has none; the parser produces none) — front_wellFormed proves that the front-end model only produces such scripts from "
